@@ -183,8 +183,31 @@ def _is_lit(p):
     return p["okind"] == "lit"
 
 
+def _caret_fail(body, with_space):
+    """'^^' inside the lexical form at a position where the scanners are known to go wrong: at the very start or right
+    after an escaped quote (so that the text '"^^' occurs before the real suffix) or - N-Triples only - followed later by a
+    blank inside the lexical form (token ends are located by searching ' ' after the first '^^')."""
+    body = SymStr.lift(body)
+    n = len(body.items)
+    conds = []
+    for i in range(0, n - 1):
+        m = body.match_at_expr("^^", i)
+        if m is False:
+            continue
+        ctx = [i == 0]
+        if i > 0:
+            ctx.append(body.match_at_expr('"', i - 1))
+        if with_space:
+            ctx.extend(body.match_at_expr(" ", j) for j in range(i + 2, n))
+        c = _or(ctx)
+        if c is False:
+            continue
+        conds.append(c if m is True else (m if c is True else z3.And(m, c)))
+    return _or(conds)
+
+
 PREDICATES = {
-    "body_contains_caret_caret": lambda p: _is_lit(p) and _has(p["obj"]["body"], "^^"),
+    "body_contains_caret_caret": lambda p: _is_lit(p) and _caret_fail(p["obj"]["body"], True),
     "typed_literal_mentions_builtin_prefix": lambda p: _is_lit(p) and p["obj"]["suffix"] == "dt" and _or(
         [_has(p["obj"]["body"], x) for x in ("xsd:", "rdf:", "dt:", "geo:")] +
         [_has(p["obj"]["dt"], x) for x in ("xsd:", "rdf:", "dt:", "geo:")]),
@@ -356,15 +379,16 @@ def skeletons(tier):
                 ("dt_xsd_int", DT_INT), ("dt_custom", DT_CUSTOM), ("dt_free1", DT_FREE), ("dt_dbpedia", DT_DBP)]
     if tier == "quick":
         bodies = [[], [F], [F, F], [F, F, F], [E_Q], [F, E_Q], [E_Q, F], [E_B], [F, E_B], [E_B, F], [E_N, F], [E_U, F],
-                  [E_Q, E_Q], [E_B, E_Q], [E_Q, E_B], [F, E_Q, F]]
+                  [E_Q, E_Q], [E_B, E_Q], [E_Q, E_B], [F, E_Q, F], [F, "^^", F], [F, "^^<", F], [F, "xsd:", F], [F, " .", F]]
     else:
         bodies = [[], [F], [F, F], [F, F, F], [F, F, F, F], [F, F, F, F, F], [E_Q], [F, E_Q], [E_Q, F], [E_B], [F, E_B], [E_B, F],
                   [E_N, F], [E_U, F], [E_Q, E_Q], [E_B, E_Q], [E_Q, E_B], [E_B, E_B], [F, E_Q, F], [F, E_B, F], [F, F, E_Q],
                   [E_Q, F, F], [F, F, E_B], [E_B, F, F], [F, E_Q, F, E_B], [E_Q, F, E_Q], [E_B, F, E_Q], [F, F, E_Q, F],
-                  [F, F, F, E_Q], [E_Q, F, F, F], [F, F, F, E_B], [F, E_U, F, F]]
+                  [F, F, F, E_Q], [E_Q, F, F, F], [F, F, F, E_B], [F, E_U, F, F],
+                  [F, "^^", F], [F, "^^<", F], [F, "xsd:", F], [F, " .", F], [F, "rdf:", F, F], [F, F, "^^<", F], [F, "http://www.w3.org/2001/XMLSchema#", F]]
     for bi, body in enumerate(bodies):
         for sname, sfx in suffixes:
-            bname = "".join("F" if x is None else {E_Q: "q", E_B: "b", E_N: "n", E_U: "u"}[x] for x in body) or "empty"
+            bname = "".join("F" if x is None else {E_Q: "q", E_B: "b", E_N: "n", E_U: "u"}.get(x, "(%s)" % x) for x in body) or "empty"
             out.append(("lit/%s/%s" % (bname, sname), _one(S_IRI, _lit(body, sfx))))
     # separators, tails, comments
     small_bodies = [[F], [F, F]] if tier == "quick" else [[F], [F, F], [F, F, F], [F, E_Q, F]]
